@@ -30,15 +30,15 @@ type TypeOps struct {
 	Sub   func(bus *eventbus.EventBus, env Env, slot int, ctxAware bool, filter func(id int) bool, opts ...eventbus.SubscribeOption) error
 	Unsub func(bus *eventbus.EventBus, env Env, slot int, ctxAware bool) error
 	// Pub publishes the event with the given id; ctx==nil uses Publish.
-	Pub   func(bus *eventbus.EventBus, ctx context.Context, id int)
+	Pub func(bus *eventbus.EventBus, ctx context.Context, id int)
 	// PubAny publishes the same event through the static type any
 	// (Publish[any]): handlers are found by the dynamic type.
 	PubAny func(bus *eventbus.EventBus, ctx context.Context, id int)
-	Clear func(bus *eventbus.EventBus)
-	Has   func(bus *eventbus.EventBus) bool
-	Count func(bus *eventbus.EventBus) int
-	Mk    func(id int) any
-	IDOf  func(ev any) (int, bool)
+	Clear  func(bus *eventbus.EventBus)
+	Has    func(bus *eventbus.EventBus) bool
+	Count  func(bus *eventbus.EventBus) int
+	Mk     func(id int) any
+	IDOf   func(ev any) (int, bool)
 }
 
 // Types is the global table, filled by init.
